@@ -546,6 +546,20 @@ func c20Node(n *snapNode, st *SuiteStats, viol map[string]*Violation, suite stri
 				at.ad.UpdateTableState(engine)
 				st.Transitions++
 			}
+			// a table-level event during a hand re-publishes the same hand state: every actor gets it again
+			for _, at := range atts {
+				if at.kind == "observer" {
+					first := at.seen
+					at.seen = nil
+					at.ad.UpdateTableState(engine)
+					if at.seen == nil {
+						at.seen = first
+					} else if why := hiddenOK(at.seen); why != "" {
+						v = &Viol{Key: "observer-sees-hidden-cards@republished-state", Detail: fmt.Sprintf("non-system observer (order %v) shown the same hand state a second time: %s", order, why)}
+						return
+					}
+				}
+			}
 			st.Execs++
 			after, _ := engine.GetJSON()
 			if after != origJSON {
@@ -640,6 +654,43 @@ func c20OpeningWindow(prefix []int) *vrt.Exec {
 	})
 	return x
 }
+
+// long-lived observers attached to real tables: every table the engine publishes during multi-hand histories
+// with membership / blind operations in the middle of hands goes to one plain observer (and one bot view).
+type monObserver struct {
+	baseMon
+	rec  *recEngine
+	obs  actor.Actor
+	seen *pt.Table
+	upto int
+	viol *Viol
+}
+
+func newMonObserver(td *TD) *monObserver {
+	m := &monObserver{rec: &recEngine{}}
+	o := actor.NewObserverRunner()
+	o.OnTableStateUpdated(func(t *pt.Table) { m.seen = t })
+	m.obs = newActorOn(m.rec, deepCopy(td.table()), o)
+	return m
+}
+
+func (m *monObserver) scan(td *TD) *Viol {
+	for ; m.upto < len(td.snaps); m.upto++ {
+		s := td.snaps[m.upto]
+		m.seen = nil
+		m.obs.GetTable().UpdateTableState(deepCopy(s.T))
+		if m.seen == nil {
+			continue
+		}
+		if why := hiddenOK(m.seen); why != "" {
+			return &Viol{Key: "observer-sees-hidden-cards@live-table/" + string(s.T.State.Status), Detail: fmt.Sprintf("a plain observer attached to the table for the whole run is shown snapshot #%d (status %s, event %s): %s", s.T.UpdateSerial, s.T.State.Status, gsEvent(s.T), why)}
+		}
+	}
+	return nil
+}
+func (m *monObserver) Quiescent(td *TD, p Pending) *Viol { return m.scan(td) }
+func (m *monObserver) After(td *TD, ev *ActEvent) *Viol  { return m.scan(td) }
+func (m *monObserver) End(td *TD) *Viol                  { return m.scan(td) }
 
 // ---- suites ------------------------------------------------------------------------------------------------
 
@@ -749,6 +800,18 @@ func init() {
 				bound = 2
 			}
 			ss = append(ss, &Suite{Name: "c20/opening-window", Bound: bound, Weight: 2, Run: c20OpeningWindow})
+			// long-lived observer on real histories with table-level events in the middle of hands
+			hb := 2
+			if tier == "thorough" {
+				hb = 3
+			}
+			cfgs := histConfigs(tier, []int{4}, []string{pt.CompetitionMode_CT}, []pt.TableBlindState{blindStd(), blindAnte()}, 2)
+			for _, hc := range cfgs {
+				hc.between = []string{"none", "arrive", "leave-busted"}
+				hc.mid = []string{"none", "arrive", "sitout", "addon-part", "rebuy-part", "leave-sitout", "blind-raise"}
+				hc.late = []string{"none", "arrive"}
+			}
+			ss = append(ss, histSuites("c20/live-observer/", cfgs, hb, func(h *hist) []Monitor { return []Monitor{newMonObserver(h.td)} })...)
 			return ss
 		},
 	})
